@@ -2,7 +2,7 @@
    Owning types modelled: static_vector (non-trivial storage) and inplace_vector, for element types
    with (fl = true) and without (fl = false) move operations, every capacity (0 included: every
    insertion stops at its precondition), every history of the operations of C03.Model.op on two objects. *)
-From Tetl Require Import Lib.Base C03.Trace C03.Model C03.Spec C03.ProofsTrace C03.ProofsRun C03.ProofsHist C03.ProofsVecSelf C03.ProofsVecDomain C03.ProofsMeetsSpec.
+From Tetl Require Import Lib.Base C03.Trace C03.Model C03.Spec C03.ProofsTrace C03.ProofsRun C03.ProofsHist C03.ProofsVecSelf C03.ProofsVecDomain C03.ProofsMeetsSpec C03.ProofsFwd.
 
 (** * the automaton *)
 (* a well-formed trace that leaves nothing alive: the history of EVERY location is
@@ -87,6 +87,24 @@ Theorem C03_vec_meets_spec : forall (fl : bool) (cap : nat) (iv : bool) (ops : l
   (snd (run_case fl cap iv ops), self_checks fl cap iv (0, 0) [] ops) = (fst v, snd v).
 Proof. exact vec_meets_spec. Qed.
 Print Assumptions C03_vec_meets_spec.
+
+(* sources that are not random-access iterators (no capacity precondition up front; the library accepts
+   them since e6416a9): when the elements fit, the events are exactly those of the random-access form;
+   when they do not, the random-access form stops before the first event, the other form constructs the
+   elements that fit - slots size() .. capacity() - 1 from the first sources - and is then stopped by
+   emplace_back's precondition (those elements stay: legal prefix, C03_vec_prefix_wf) *)
+Theorem C03_vec_forward_iterator_forms : forall (fl : bool) (cap c n pos : nat) (srcs : list loc),
+  (n + length srcs <= cap ->
+     insert_range_fwd fl cap c n pos srcs = insert_range fl cap c n pos srcs /\
+     move_insert_fwd fl cap c n pos srcs = move_insert fl cap c n pos srcs) /\
+  (length srcs <= cap -> assign_range_fwd fl cap c n srcs = assign_range fl cap c n srcs) /\
+  (pos <= n -> n <= cap -> cap < n + length srcs ->
+     insert_range_fwd fl cap c n pos srcs = (constructs c n (firstn (cap - n) (map Copy srcs)), Stop) /\
+     insert_range fl cap c n pos srcs = ([], Stop) /\
+     move_insert_fwd fl cap c n pos srcs = (constructs c n (firstn (cap - n) (map (mv fl) srcs)), Stop) /\
+     move_insert fl cap c n pos srcs = ([], Stop)).
+Proof. exact forward_iterator_forms. Qed.
+Print Assumptions C03_vec_forward_iterator_forms.
 
 (* the hypothesis is satisfiable by a history that copies, moves, swaps, inserts and erases *)
 Example C03_nonvacuous :
